@@ -42,6 +42,24 @@ type vC10World struct {
 
 // a fresh plugin: fresh maps everywhere => fresh Go map iteration seeds
 func vC10Plugin(w *vC10World, me int) *Plugin {
+	p, _ := vC10PluginHC(w, me)
+	return p
+}
+
+func vC10Repoint(hc *vHomeChain, w *vC10World) {
+	var peers []libocrtypes.PeerID
+	for i := 0; i < w.n; i++ {
+		peers = append(peers, vPeer(i))
+	}
+	for ch := range hc.Configs {
+		delete(hc.Configs, ch)
+	}
+	for ch, f := range w.fChain {
+		hc.SetChain(ch, f, peers)
+	}
+}
+
+func vC10PluginHC(w *vC10World, me int) (*Plugin, *vHomeChain) {
 	hc := vNewHomeChain()
 	m := map[commontypes.OracleID]libocrtypes.PeerID{}
 	var peers []libocrtypes.PeerID
@@ -65,7 +83,7 @@ func vC10Plugin(w *vC10World, me int) *Plugin {
 		mocks.NewMessageHasher(), mocks.NullLogger, hc, nil, nil, nil,
 		ocr3types.ReportingPluginConfig{F: w.f, N: w.n, OracleID: commontypes.OracleID(me), MaxDurationQuery: time.Second})
 	p.discoveryProcessor = nil
-	return p
+	return p, hc
 }
 
 // vote pattern: how many oracles report value A, how many value B (rest: nothing)
@@ -104,35 +122,53 @@ func TestVerif_C10_commit(t *testing.T) {
 	savedLocal := time.Local
 	defer func() { time.Local = savedLocal }()
 	base := time.Date(2024, 11, 5, 12, 0, 0, 0, time.UTC)
+	// a world lives for three consecutive cases; two veteran plugins (own ids 0 and 1) are created with it and are evaluated
+	// on every case of the world next to the fresh instances, the per-chain f values changing in between
+	var w *vC10World
+	var vetP [2]*Plugin
+	var vetHC [2]*vHomeChain
 	for i := 0; i < n; i++ {
-		w := &vC10World{}
-		w.n = vPick(r, []int{4, 7, 10})
-		w.f = (w.n - 1) / 3
-		ns := r.Range(2, 5)
-		perm := r.Perm(50)
-		w.fChain = map[cciptypes.ChainSelector]int{vC10Dest: r.Range(1, w.f), vC10Feed: r.Range(1, w.f)}
-		for k := 0; k < ns; k++ {
-			ch := cciptypes.ChainSelector(perm[k] + 1)
-			w.sources = append(w.sources, ch)
-			w.fChain[ch] = r.Range(1, w.f)
+		if i%3 != 0 {
+			for _, ch := range w.sources {
+				if r.Chance(1, 2) {
+					w.fChain[ch] = r.Range(1, w.f)
+				}
+			}
+			vC10Repoint(vetHC[0], w)
+			vC10Repoint(vetHC[1], w)
 		}
-		nt := r.Range(1, 4)
-		w.cfg = pluginconfig.CommitOffchainConfig{
-			RemoteGasPriceBatchWriteFrequency:  *commonconfig.MustNewDuration(time.Minute),
-			TokenPriceBatchWriteFrequency:      *commonconfig.MustNewDuration(time.Minute),
-			PriceFeedChainSelector:             vC10Feed,
-			MaxReportTransmissionCheckAttempts: uint(r.Range(1, 4)),
-			MaxMerkleTreeSize:                  uint64(vPick(r, []int{1, 4, 256})),
-			TokenInfo:                          map[cciptypes.UnknownEncodedAddress]pluginconfig.TokenInfo{},
-			FeeInfo:                            map[cciptypes.ChainSelector]pluginconfig.FeeInfo{},
-		}
-		for k := 0; k < nt; k++ {
-			tok := cciptypes.UnknownEncodedAddress(fmt.Sprintf("0x%040x", perm[10+k]+1))
-			w.tokens = append(w.tokens, tok)
-			w.cfg.TokenInfo[tok] = pluginconfig.TokenInfo{AggregatorAddress: tok, DeviationPPB: cciptypes.NewBigIntFromInt64(int64(r.Range(1, 5)) * 1e7), Decimals: 18}
-		}
-		for _, ch := range w.sources {
-			w.cfg.FeeInfo[ch] = pluginconfig.FeeInfo{ExecDeviationPPB: cciptypes.NewBigIntFromInt64(1e8), DataAvailabilityDeviationPPB: cciptypes.NewBigIntFromInt64(1e8)}
+		if i%3 == 0 {
+			w = &vC10World{}
+			w.n = vPick(r, []int{4, 7, 10})
+			w.f = (w.n - 1) / 3
+			ns := r.Range(2, 5)
+			perm := r.Perm(50)
+			w.fChain = map[cciptypes.ChainSelector]int{vC10Dest: r.Range(1, w.f), vC10Feed: r.Range(1, w.f)}
+			for k := 0; k < ns; k++ {
+				ch := cciptypes.ChainSelector(perm[k] + 1)
+				w.sources = append(w.sources, ch)
+				w.fChain[ch] = r.Range(1, w.f)
+			}
+			nt := r.Range(1, 4)
+			w.cfg = pluginconfig.CommitOffchainConfig{
+				RemoteGasPriceBatchWriteFrequency:  *commonconfig.MustNewDuration(time.Minute),
+				TokenPriceBatchWriteFrequency:      *commonconfig.MustNewDuration(time.Minute),
+				PriceFeedChainSelector:             vC10Feed,
+				MaxReportTransmissionCheckAttempts: uint(r.Range(1, 4)),
+				MaxMerkleTreeSize:                  uint64(vPick(r, []int{1, 4, 256})),
+				TokenInfo:                          map[cciptypes.UnknownEncodedAddress]pluginconfig.TokenInfo{},
+				FeeInfo:                            map[cciptypes.ChainSelector]pluginconfig.FeeInfo{},
+			}
+			for k := 0; k < nt; k++ {
+				tok := cciptypes.UnknownEncodedAddress(fmt.Sprintf("0x%040x", perm[10+k]+1))
+				w.tokens = append(w.tokens, tok)
+				w.cfg.TokenInfo[tok] = pluginconfig.TokenInfo{AggregatorAddress: tok, DeviationPPB: cciptypes.NewBigIntFromInt64(int64(r.Range(1, 5)) * 1e7), Decimals: 18}
+			}
+			for _, ch := range w.sources {
+				w.cfg.FeeInfo[ch] = pluginconfig.FeeInfo{ExecDeviationPPB: cciptypes.NewBigIntFromInt64(1e8), DataAvailabilityDeviationPPB: cciptypes.NewBigIntFromInt64(1e8)}
+			}
+			vetP[0], vetHC[0] = vC10PluginHC(w, 0)
+			vetP[1], vetHC[1] = vC10PluginHC(w, 1)
 		}
 		// ---- previous outcome / state
 		state := vPick(r, []string{"select", "build", "wait", "build-retry"})
@@ -295,6 +331,10 @@ func TestVerif_C10_commit(t *testing.T) {
 		for k := 0; k < reps; k++ {
 			time.Local = zones[k%len(zones)]
 			p := vC10Plugin(w, k%w.n)
+			var repP *Plugin
+			if k == reps-1 {
+				p, repP = vetP[0], vetP[1]
+			}
 			out, err := p.Outcome(ctx, ocr3types.OutcomeContext{SeqNr: 5, PreviousOutcome: prevB}, qB, aos)
 			key := ""
 			if err != nil {
@@ -307,7 +347,10 @@ func TestVerif_C10_commit(t *testing.T) {
 					first = string(out)
 				}
 				// reports derived from the outcome, on another fresh instance
-				reps2, err2 := vC10Plugin(w, (k+1)%w.n).Reports(ctx, 5, out)
+				if repP == nil {
+					repP = vC10Plugin(w, (k+1)%w.n)
+				}
+				reps2, err2 := repP.Reports(ctx, 5, out)
 				if err2 != nil {
 					key += "/RERR"
 				} else {
